@@ -41,13 +41,20 @@ TYPES = {
     "tuple": ({"type": "array", "items": [INT, {"type": "string"}], "minItems": 2, "maxItems": 2}, [[1, "a"], [2, ""]], None, [7, "d"]),
     "uuid": ({"type": "string", "format": "uuid"}, ["00000000-0000-0000-0000-000000000000", "f81d4fae-7dec-11d0-a765-00a0c91e6bf6"], None, None),
 }
-STATES = ["req", "opt", "dflt"]
+STATES = ["req", "opt", "dflt", "dflt0"]
+# the schema restates the type's implicit default (0, "", false, [], {}, null): typify treats the member like an optional one
+INTRINSIC0 = {"string": "", "str_max2": "", "integer": 0, "u8": 0, "bool": False, "vec": [], "map": {}, "number": 0, "set": [], "map_any": {}, "nullable": None}
 NAMES = ["a", "foo-bar", "c"]
 
 
 def member(tname, state):
     schema, vals, raw, d = TYPES[tname]
     s = dict(schema)
+    if state == "dflt0":
+        if tname not in INTRINSIC0:
+            return None
+        s["default"] = INTRINSIC0[tname]
+        return {"type": tname, "state": state, "schema": s, "vals": vals, "raw": raw, "default": INTRINSIC0[tname]}
     if state == "dflt":
         if d is None:
             return None
